@@ -41,6 +41,9 @@ CHECKS = {
  "C20": ("model-based testing through the CLI with scripted stdin: proptest-generated terminating programs x stepping mode (-i, trap flag set/cleared in mid-program, INT 3) x prompt scripts (next/print/garbage/quit, premature end of input); tokenised stdout must equal the reference event sequence; differential check of -i with all prompts answered n against the plain run; output cap turns a spinning prompt into a violation",
          "exploration; about 1.1*10^3 (quick) / 2.3*10^4 (thorough) CLI runs; prompt discipline (exactly one announcement per executed instruction naming its line, prints do not advance, n advances one instruction, q/quit/EOF terminate with status 0) decided by event-sequence equality",
          "trusted: reference interpreter incl. prompt protocol, stdout tokenizer; stdin is a pipe or closed; an extra 'Exiting' line at end of input is accepted", "3/C20"),
+ "C12": ("model-based testing of the data section: proptest-generated SET/DB/DW definition sequences (all four kinds, labels, every radix and OFFSET spellings, lengths and segment totals steered onto the 64 KiB boundary, segments wrapping the 1 MiB space) assembled and loaded, whole 1 MiB image compared with an independently computed image, label offsets and loads through label operands / OFFSET checked in-process and through the CLI (DS=0000 at start)",
+         "exploration; 8*10^3 (quick) / 1.6*10^5 (thorough) generated data sections in-process plus a deterministic boundary family (totals 65533..131072, string limits, SET resets) and 3*10^2 / 4*10^3 CLI runs; > 64 KiB per segment must be a diagnostic (no abort, no accepted program)",
+         "trusted: reference image/offset computation in the harness; a total of exactly 65536 bytes and strings beyond the assembler's documented single-string limit may be accepted or refused", "3/C12"),
 }
 
 REASON_WIP = "check not built yet in this revision of /verif (work in progress; see DESIGN.md section 7 for the order of work)"
